@@ -903,11 +903,13 @@ impl Property for P13 {
     }
 
     fn rule() -> &'static str {
-        "each evaluation is one value sequence (1-3 values of 57 types: all integer widths at head boundaries, floats, strings/bytes \
+        "each evaluation is one value sequence (1-4 values of 57 types: all integer widths at head boundaries, floats, strings/bytes \
          around 0/23/24/255/256(/65535/65536) bytes, Option/Result, tuples, arrays, Vec, BTreeMap, Duration, IP/socket addresses, Int, \
          Tagged, token sequences, derive-generated structs/enums in array/map/index_only/transparent/borrowed/tagged forms, raw Encoder \
          call sequences incl. indefinite containers) encoded through one Encoder into EVERY sink kind at EVERY capacity 0..=len+1 \
-         (len <= 320; selected capacities incl. internal write boundaries +-1 beyond), or one raw write_all history (<= 12 calls, \
+         (len <= 320; selected capacities incl. internal write boundaries +-1 beyond; a few sequences per run contain 64-200 KiB strings); \
+         sequences of >= 2 values are additionally run through ONE Encoder and continued past failures against the bounded-buffer model \
+         applied to the encoder's recorded internal writes; Vec sinks also presized with spare capacity of every scale; or one raw write_all history (<= 12 calls, \
          lengths 0..=cap+1) against the bounded-buffer model; sweeps: every type x fixed sizes, and all raw histories of <= 3 calls for \
          cap <= 6. Non-trivial = at least one (sink, capacity) pair in which the sink refused bytes; distinct = distinct hash of the \
          executed (sink, capacity, outcome) trace."
